@@ -3,5 +3,7 @@ INVARIANT MatchInv
 INVARIANT OutwardInv
 INVARIANT InwardInv
 INVARIANT TruthInv
+INVARIANT ScanInv
+INVARIANT AttrInv
 INVARIANT Dump
 CHECK_DEADLOCK FALSE
